@@ -178,6 +178,17 @@ mxClassID mxGetClassID(const mxArray* pa) { check(pa, "mxGetClassID"); return pa
 bool mxIsComplex(const mxArray* pa) { check(pa, "mxIsComplex"); return false; }
 bool mxIsDouble(const mxArray* pa) { check(pa, "mxIsDouble"); return pa->cls == mxDOUBLE_CLASS; }
 bool mxIsChar(const mxArray* pa) { check(pa, "mxIsChar"); return pa->cls == mxCHAR_CLASS; }
+bool mxIsEmpty(const mxArray* pa) { check(pa, "mxIsEmpty"); return pa->m == 0 || pa->n == 0; }
+size_t mxGetNumberOfElements(const mxArray* pa) { check(pa, "mxGetNumberOfElements"); return pa->m * pa->n; }
+mwSize mxGetNumberOfDimensions(const mxArray* pa) { check(pa, "mxGetNumberOfDimensions"); return 2; }
+bool mxIsNumeric(const mxArray* pa) { check(pa, "mxIsNumeric"); return pa->cls >= mxDOUBLE_CLASS && pa->cls <= mxUINT64_CLASS; }
+bool mxIsLogical(const mxArray* pa) { check(pa, "mxIsLogical"); return pa->cls == mxLOGICAL_CLASS; }
+bool mxIsCell(const mxArray* pa) { check(pa, "mxIsCell"); return pa->cls == mxCELL_CLASS; }
+bool mxIsStruct(const mxArray* pa) { check(pa, "mxIsStruct"); return pa->cls == mxSTRUCT_CLASS; }
+bool mxIsInt32(const mxArray* pa) { check(pa, "mxIsInt32"); return pa->cls == mxINT32_CLASS; }
+bool mxIsInt64(const mxArray* pa) { check(pa, "mxIsInt64"); return pa->cls == mxINT64_CLASS; }
+bool mxIsUint64(const mxArray* pa) { check(pa, "mxIsUint64"); return pa->cls == mxUINT64_CLASS; }
+bool mxIsScalar(const mxArray* pa) { check(pa, "mxIsScalar"); return pa->m == 1 && pa->n == 1; }
 char* mxArrayToString(const mxArray* pa) {
   check(pa, "mxArrayToString");
   if (pa->cls != mxCHAR_CLASS) return nullptr;
